@@ -101,14 +101,17 @@ PROPS = {
         "assumptions": COMMON_ASSUME,
     },
     "C06": {
-        "units": [{"pkg": "./c06", "race": True, "shards": 4, "shards_thorough": 8, "timeout": 300}],
+        "units": [
+            {"pkg": "./c06", "race": True, "shards": 4, "shards_thorough": 8, "timeout": 300},
+            {"pkg": "./mainpkg", "run": "^TestC06", "race": True, "shards": 2, "shards_thorough": 4, "timeout": 300},
+        ],
         "parallel": 4,
         "rule": ("rapid-generated concurrent workloads, all under the Go race detector: (a) routes with 2-12 weighted/unweighted targets: L lookups sequentially on one copy of the table and the same L lookups split over "
                  "2-32 goroutines on a twin copy must give identical per-target counts (round robin hands out every slot exactly once); (b) tables with more glob host patterns than the cache size (1-8): every lookup "
                  "gets the sequentially correct route and the cache never holds more than its size (hook VerifLen, sampled and final); (c) HTTPProxy.ServeHTTP with $host$path and strip redirect routes, allow and deny "
                  "routes (per-goroutine peer addresses and X-Forwarded-For) and multi-target routes, optionally while a writer keeps replacing the table: every response (Location, 403/200, upstream) is the sequential "
                  "answer for that goroutine's own request; (d) Table.Lookup's RedirectURL belongs to the calling request. Non-trivial = workload in which requests actually overlapped (in-flight counter > 1) / "
-                 ">=2 goroutines on one route."),
+                 ">=2 goroutines on one route. Main-wiring form (mainpkg, -race): 2-16 goroutines send routed and unrouted requests at once to the proxy main.go builds (either strategy, routes with 2-5 targets): each answer comes from the request's own route."),
         "technique": "generated concurrent workloads under the race detector with per-request sequential oracles and a twin-table differential for round robin",
         "level_text": "Many generated multi-goroutine workloads are executed against shared tables, pickers, the glob cache and the HTTP handler; each observation is compared with the sequential answer for the same request and the race detector reports unsynchronised access pairs. Exploration only: schedules are sampled, not enumerated.",
         "level_note": "The Go scheduler is not controlled. A lock-free logic error that involves only atomics is caught only if an executed schedule exposes it to the semantic oracle; data races are caught whenever both accesses execute.",
@@ -260,6 +263,7 @@ PROPS = {
         "units": [
             {"pkg": "./c10", "shards": 8, "shards_thorough": 16, "timeout": 300},
             {"pkg": "./mainpkg", "run": "^TestC10", "race": True, "shards": 2, "shards_thorough": 4, "timeout": 300},
+            {"pkg": "./c09", "run": "TestC09ConcurrentConnections", "race": True, "shards": 2, "shards_thorough": 4, "timeout": 300},
         ],
         "fuzz": [{"pkg": "./c10", "target": "FuzzC10ReadServerName", "time": "600s"}],
         "rule": ("(1) ClientHellos emitted by crypto/tls clients with rapid-generated configs (server names 1-249 bytes in any case, underscores, punycode, trailing dot, IP literal => no SNI; ALPN lists; "
@@ -330,14 +334,17 @@ PROPS = {
         "assumptions": COMMON_ASSUME,
     },
     "C03": {
-        "units": [{"pkg": "./c03", "shards": 4, "shards_thorough": 16, "timeout": 300}],
+        "units": [
+            {"pkg": "./c03", "shards": 4, "shards_thorough": 16, "timeout": 300},
+            {"pkg": "./mainpkg", "run": "^TestC03", "shards": 2, "shards_thorough": 4, "timeout": 300},
+        ],
         "rule": ("rapid-generated (table, requests) pairs: 1-12 routes over a colliding universe of hosts (exact names sharing suffixes, *.x wildcards at several depths, "
                  "host:80/:443/:8080, host-less, written in mixed case) and nested paths; requests = route hosts / wildcard instances / unrelated names in random letter case "
                  "with optional :80/:443/:other port, TLS on/off, paths extended/truncated/case-flipped; all three matchers, glob matching on and off, both pickers, small glob caches; "
                  "plus LookupHost for tcp/sni names. Oracle: brute-force reference ranking (exact > wildcard by literal suffix length > host-less; longest path within a host; "
                  "ties between equally ranked hosts accepted); routed iff a candidate exists. Non-trivial = the request has candidates on >=2 different (host rank, path length) levels; "
                  "distinct by hash of (table text, request). Every-pick sub-check: a most specific route with 2-5 targets and fixed weights (incl. < 0.0001) next to less specific ones is looked up for a full round-robin cycle (+3) and for every slot the random picker "
-                 "can draw: each answer is non-nil and a target of the most specific route."),
+                 "can draw: each answer is non-nil and a target of the most specific route. Main-wiring form (mainpkg): proxy.matcher x glob.matching.disabled given as options to config.Load; the Lookup function of the proxy main.go builds answers every generated request like Table.Lookup called with exactly those options."),
         "technique": "rapid property test, differential against a brute-force reference ranking model",
         "level_text": "Every generated (table, request) is looked up with fabio's Table.Lookup/LookupHost and compared against an independent brute-force model of the specificity order in both directions (routed iff a candidate exists; the answer belongs to a top-ranked candidate). Exploration only.",
         "level_note": "Glob path specificity is asserted only for literal and literal+'*' patterns; wildcard hosts are generated as '*' and '*.suffix[:port]'. Ties between equally specific host patterns (e.g. foo.com and foo.com:80) accept either.",
